@@ -8,6 +8,9 @@ from vf.ref.ecref import SECP256K1 as S, ecdsa_verify
 from vf.runner import Acc, filler
 
 PROPERTY = "C02"
+CONCUR_FILES = ('bits/utils.py', 'bits/ecmath.py', 'bits/pem.py')
+# (thread a, thread b), warm-up: indices into seq_ops() - the ordinary single-case checks run concurrently (vf/concur.py)
+CONCUR_SCEN = [((0, 4), (8,)), ((0, 0), (4,)), ((2, 3), (0,))]
 LEVEL = "exploration"
 ENGINES = ["E2-small-curve", "E1-scope-enumerator"]
 RULE = ("layer A (small curves): ecmath.verify over EVERY (point P, digest z in [0,2n+1], r in [0,n+1] u {r+n aliases}, "
@@ -20,6 +23,7 @@ RULE = ("layer A (small curves): ecmath.verify over EVERY (point P, digest z in 
 ASSUMPTIONS = ["E2 small-curve retargeting (see C03)", "reference predicate vf/ref/ecref.ecdsa_verify; strict/lenient DER readers "
                "vf/ref/der_ref.py; a DER string valid only under a lenient reading may be accepted or rejected"]
 OBLIGATIONS = {
+    "concurrent_calls": "interleavings of two concurrent calls (single-case checks in two threads, cold and after warm-up calls)",
     "history_sequences": "operation sequences (non-initial process states) explored",
     "concurrent_first_calls": "interleavings of two concurrent first sig_verify calls explored",
     "infinity_tuple": "a tuple with u1*G + u2*P = infinity was offered",
@@ -178,6 +182,9 @@ def run_case(kind, case):
         from vf import concur
         calls, judge = _concur_setup(case)
         return concur.replay_calls(calls, ("bits/utils.py", "bits/ecmath.py", "bits/pem.py"), case["choices"], judge)
+    if kind == "concurcase":
+        from vf import concur
+        return concur.replay_cases(run_case, PROPERTY, case, CONCUR_FILES)
     if kind == "seq":
         from vf import seqexplore
         return seqexplore.replay(run_case, case)
@@ -255,6 +262,8 @@ def jobs(tier, seed):
     js.append({"name": "secp/lows", "part": "real-lows", "weight": 4})
     from vf.runner import seq_jobs
     js += seq_jobs(4, curve=t43, weight=4)
+    from vf.runner import concur_jobs
+    js += concur_jobs(len(CONCUR_SCEN), curve=t43)
     for i in range(2):
         js.append({"name": f"concurrent/{i}", "part": "concur", "curve": t43, "idx": i, "weight": 10})
     return js
@@ -279,6 +288,11 @@ def base_tuple(seed, b):
 
 
 def run_job(job):
+    if job["part"] == "concurcase":
+        from vf.runner import run_concur_job
+        ops = seq_ops(dict(job, shard=[0, 1]))
+        scens = [{"threads": [ops[i] for i in th], "warm": [ops[i] for i in wm]} for th, wm in CONCUR_SCEN]
+        return run_concur_job(job, scens, run_case, PROPERTY, CONCUR_FILES)
     if job["part"] == "seq":
         from vf.runner import run_seq_job
         return run_seq_job(job, seq_ops(job), run_case)
